@@ -35,7 +35,7 @@ from spyne.error import ValidationError
 from spyne.error import ResourceNotFoundError
 
 from spyne.model import ByteArray, File, Fault, ComplexModelBase, Array, Any, \
-    AnyDict, Uuid, Unicode
+    AnyDict, Uuid, Unicode, Integer
 
 from spyne.protocol.dictdoc import DictDocument
 
@@ -254,6 +254,13 @@ class HierDictDocument(DictDocument):
 
                 else:
                     retval = self.from_serstr(cls, inst)
+
+                    if isinstance(retval, float) and issubclass(cls, Integer):
+                        # json/yaml/msgpack numbers are passed through as they
+                        # are. NaN, infinity and 1.5 are not integers.
+                        if retval != retval or not retval.is_integer():
+                            raise ValidationError([key, inst])
+                        retval = int(retval)
 
         # validate native type
         if validator is self.SOFT_VALIDATION:
